@@ -313,7 +313,11 @@ class SymInputs(_Base):
                     raise E.Inconclusive(f"prove {label}: unknown")
                 if r == "unsat":
                     raise E.PathAbort("unsat path at prove")
-                res.failed.append(E.Failure(label, self.model_inputs(m), list(self.ctx.taken), note))
+                try:
+                    mi0 = self.model_inputs(m)
+                except HarnessError as he:
+                    raise E.Inconclusive(f"prove {label}: counterexample not replayable ({he})")
+                res.failed.append(E.Failure(label, mi0, list(self.ctx.taken), note))
                 ok = False
                 break
             if self._syntactic(c):
